@@ -30,7 +30,16 @@ RULE = ("libraries built from sequences over a 12-block universe (entries with k
         "@strings, preambles, comments, Field and block subclasses, attributes put on the instance by the caller; every block kind x "
         "every kind of state one at a time, sampled mixtures, libraries parsed with the default or an empty stack plus extras; the "
         "result must read like the stable arrangement of a deep copy taken before the call, attribute by attribute, by instance state "
-        "and by Block.__eq__, the input unchanged (oracle only with user classes / caller attributes / values without wire shape). distinct = "
+        "and by Block.__eq__, the input unchanged (oracle only with user classes / caller attributes / values without wire shape); NAMES "
+        "(harness/props/c16_names.py): user classes that COINCIDE with library classes in name or shape - subclasses of the block "
+        "classes (and of ParsingFailedBlock) with the same __name__ / __qualname__ as their base, with the name of ANOTHER library "
+        "class (the five, the failed-block classes, Block) or a near miss of one, unrelated Block subclasses under such names, "
+        "nested (Project.Entry), derived once more under the same name, with __module__ reading a user module, __main__ or "
+        "bibtexparser.model - as instances among plain blocks of the base, of the name twin and of other classes (also wrapped as "
+        "duplicate-key blocks, in and above comment runs), under orders that list the class itself / its base / the library class "
+        "of its name in every combination and relative order or none, tuple or list, both comment modes, once or twice; and plain "
+        "libraries under orders listing such classes (model-compared); rank, comment-ness and key are decided by type IDENTITY, "
+        "the oracle compares classes with `is` only (oracle only where such an instance is held). distinct = "
         "distinct (sequence, order, mode, times); non-trivial = at least two blocks")
 TRUSTED = ["CPython's list.sort is a stable sort (Base/StableSort.v proves the stable sorted permutation unique, so any such "
            "sort computes the model's insertion sort); tuple comparison (int, str) is lexicographic, str by code point",
@@ -206,6 +215,8 @@ def generate(rng, tier):
     generate_userclasses(rng, quick, maxlen, cases)
     from . import c16_state
     c16_state.generate_state(rng, quick, maxlen, cases, orders, all_orders)
+    from . import c16_names
+    c16_names.generate_names(rng, quick, maxlen, cases, rand_seq)
     return cases
 
 
@@ -308,6 +319,9 @@ def shrink(case):
         d = dict(inp)
         d.update(kw)
         out.append({"stream": "shrink", "input": d})
+    if "names" in inp:
+        from . import c16_names
+        return c16_names.shrink_names(case)
     if "state" in inp:
         from . import c16_state
         return c16_state.shrink_state(case)
@@ -800,6 +814,9 @@ def impl(case):
     from bibtexparser.library import Library
     from bibtexparser.middlewares import SortBlocksByTypeAndKeyMiddleware
     inp = case["input"]
+    if "names" in inp:
+        from . import c16_names
+        return c16_names.impl_names(case)
     if "state" in inp:
         from . import c16_state
         return c16_state.impl_state(case)
